@@ -166,11 +166,13 @@ pub struct Tx {
     pub keep_io: bool,
     /// lean: do not retain entry contents nor one record per repeated successful call
     pub lean: bool,
+    /// transient-fault families: an Err does not end the run (a panic still does)
+    pub continue_after_err: bool,
 }
 
 impl Tx {
     pub fn new(env: Env) -> Tx {
-        Tx { env, recs: Vec::new(), stop: false, io: Vec::new(), keep_io: false, lean: false }
+        Tx { env, recs: Vec::new(), stop: false, io: Vec::new(), keep_io: false, lean: false, continue_after_err: false }
     }
 
     /// Runs one public call under catch_unwind and records its result.
@@ -188,7 +190,9 @@ impl Tx {
         let (out, res) = match r {
             Ok(Ok((t, res))) => (Some(t), res),
             Ok(Err(e)) => {
-                self.stop = true;
+                if !self.continue_after_err {
+                    self.stop = true;
+                }
                 (None, Res::Err(e))
             }
             Err(_) => {
@@ -396,13 +400,17 @@ pub fn cur_op(tx: &mut Tx, c: &mut ReaderCursor<SimFile>, op: &Op) -> Option<()>
         Op::Current => tx.call("current", || Ok(((), entry_res(c.current())))),
         Op::NextN(n) => {
             for _ in 0..*n {
-                mv!("move_on_next", c.move_on_next())?;
+                if mv!("move_on_next", c.move_on_next()).is_none() && tx.stop {
+                    return None;
+                }
             }
             Some(())
         }
         Op::PrevN(n) => {
             for _ in 0..*n {
-                mv!("move_on_prev", c.move_on_prev())?;
+                if mv!("move_on_prev", c.move_on_prev()).is_none() && tx.stop {
+                    return None;
+                }
             }
             Some(())
         }
@@ -489,7 +497,7 @@ pub fn exec_cursor(tx: &mut Tx, case: &CursorCase, bytes: Vec<u8>, fp: &mut dyn 
                 }
             }
             op => {
-                if cur_op(tx, &mut cursors[idx], op).is_none() {
+                if cur_op(tx, &mut cursors[idx], op).is_none() && tx.stop {
                     return;
                 }
             }
